@@ -41,6 +41,13 @@ CLAIMS = {
          "method set implementing it; members are exactly those, each once, in name order. Struct.setImplements on 0..3 (4) unions (listing the struct or not, analysed or not, symbolic names) for every iteration "
          "order of the unions map: Implements is exactly the analysed unions listing the struct, in name order. NOT decided: reachability of unions/structs through the type graph (C12's traversal), cross-package members.",
          "DESIGN.md section 4 (C11)", ""),
+ "C07": ("Decides the map-iteration-order clause by self-composition: the engine treats every `range` over a map as a nondeterministic permutation and each harness compares the result under every order "
+         "with the result under a reference order, on symbolic data where data matters (import paths, union names, constant names). Solved sites: Cache.Imports and the randdata header built from it, "
+         "Struct.setImplements, fetchEnumsAndUnions (diamond import graph), fetchPkgEnums' final loop, PkgSelector.findPackage, NewLinker/OutputFiles/GetOutput, dart.Generate (file name -> text). "
+         "A static scan of all 17 map-range sites of the non-test gomacro packages runs on every check; a site without harness or recorded argument is reported INCONCLUSIVE. Argued, not solved: populateTypes, "
+         "cmd Config.run, the two httpapi import walks. For dart.Generate and NewLinker the quick tier varies one map range at a time (thorough: full product). Iteration orders are case-split exhaustively, "
+         "the solver decides the data-dependent branches (string orderings). NOT decided: pointer-value and visiting-order sources (argued: no %p verb, Source sorted by position), cross-process runs, formatter output.",
+         "DESIGN.md section 4 (C07)", ""),
 }
 
 NA = {
